@@ -36,6 +36,7 @@ def required_cells(tier):
     for fam in ("tetrahedron", "hexahedron", "pyramid", "prism"):
         req["body:" + fam] = 20 if q else 300
     req["kind:PH"] = 200 if q else 5000
+    req["body:with-coplanar-faces"] = 40 if q else 800
     req["pose:via-move"] = 150 if q else 4000
     req["pose:original-after-sibling-moved"] = 50 if q else 1000
     req["pose:endpoints-assigned"] = 20 if q else 400
@@ -88,6 +89,10 @@ def cases(rng, budget, widx, nworkers, tier):
             d = gen.rand_polyhedron(rng, small=rng.random() < 0.3)
             if len(d[1]) > 10 or max(len(f) for f in d[2]) > 6:
                 continue
+            if rng.random() < 0.12:
+                d2 = gen.split_face(rng, d)          # one face handed over as two coplanar polygons
+                if d2 is not None:
+                    d = d2
             if nt == "int" and not _integral(d):
                 nt = "Fraction" if rng.random() < 0.5 else "float"
             nf = len(d[2])
@@ -246,6 +251,8 @@ def judge(case):
         return mu.result()
     # polyhedron
     mu.cell("kind:PH", "body:" + gen.family_of(d))
+    if len({K.plane_key(gen._reduce(K.polygon_normal(f)) if True else None, f[0]) for f in d[2]}) < len(d[2]):
+        mu.cell("body:with-coplanar-faces")
     if case.get("exh"):
         mu.cell("orient:exhaustive-polyhedron")
     if case.get("mv"):
